@@ -228,7 +228,16 @@ impl Scenario for Lifecycle {
                 }
                 K_RESET_KEY => {
                     let kl = match rng.below(4) { 0 => 0, 1 => v.max_key, _ => rng.range(1, v.max_key as u64) as usize };
-                    t.ops.push(Op::new(h as u8, K_RESET_KEY).arg(kl as u64).seed(rng.data_seed()));
+                    // a third of the re-keys use a key related to the one in use (same bytes zero-extended or cut, all
+                    // zeros, the same key, last bit flipped), usually followed by the trait-level reset that re-keys from
+                    // the stored copy
+                    let rel = if rng.chance(1, 3) { 4 + rng.below(4) } else { 0 };
+                    t.ops.push(Op::new(h as u8, K_RESET_KEY).arg(kl as u64).seed(rng.data_seed()).off((rel << 1) as u8));
+                    if rel != 0 && rng.chance(1, 2) {
+                        t.ops.push(Op::new(h as u8, K_INPUT).len(rng.range(1, 2 * b as u64) as usize).seed(rng.data_seed()));
+                        t.ops.push(Op::new(h as u8, K_RESULT));
+                        t.ops.push(Op::new(h as u8, K_RESET));
+                    }
                     sh[h] = (0, false);
                 }
                 _ => {
@@ -407,7 +416,7 @@ impl Scenario for Lifecycle {
                     }
                     let hd = hs[h].as_mut().unwrap();
                     obs.hit("fault.reset_with_key");
-                    let k = data(op.seed, (op.arg as usize).min(v.max_key));
+                    let k = hashctx::related_key(&hd.key, op, v.max_key);
                     match guarded(|| hd.obj.reset_with_key(&k)) {
                         Ok(()) => {}
                         Err(_) if hd.refused => {
